@@ -21,8 +21,6 @@
 // OUT OF OR IN CONNECTION WITH THE SOFTWARE OR THE USE OR OTHER DEALINGS IN
 // THE SOFTWARE.
 
-use super::request::is_valid_uri_byte;
-
 #[inline]
 pub fn match_path_vectored(buf: &[u8]) -> usize {
     swar_match_path_vectored(buf)
@@ -79,7 +77,7 @@ fn swar_match_uri_vectored(buf: &[u8]) -> usize {
 
     while i + BLOCK_SIZE <= len {
         let x = unsafe { core::ptr::read_unaligned(buf.as_ptr().add(i) as *const usize) };
-        // 33 <= (x != 127) <= 255
+        // 33 <= x <= 126
         const M: u8 = 0x21;
         // uniform block full of exclamation mark (!) (33).
         const BM: usize = uniform_block(M);
@@ -94,7 +92,8 @@ fn swar_match_uri_vectored(buf: &[u8]) -> usize {
         let y = x ^ DEL;
         let eq = y.wrapping_sub(ONE) & !y;
 
-        let hit = (lt | eq) & M128;
+        // bytes >= 0x80 are not URI bytes either (`| x` keeps their high bit)
+        let hit = (lt | eq | x) & M128;
         if hit != 0 {
             // find the first offending byte in this word and return
             return i + offsetnz(hit);
@@ -104,7 +103,8 @@ fn swar_match_uri_vectored(buf: &[u8]) -> usize {
 
     // read tail
     while i < len {
-        if !is_valid_uri_byte(unsafe { *buf.get_unchecked(i) }) {
+        // same predicate as the block loop: visible ASCII only
+        if !(0x21..=0x7e).contains(unsafe { buf.get_unchecked(i) }) {
             break;
         }
         i += 1;
